@@ -534,11 +534,17 @@ func parseRaceLogs(paths []string, repoRoot string) []raceReport {
 				}
 				t := strings.TrimSpace(l)
 				if m := raceFileRe.FindStringSubmatch(l); m != nil {
-					if inAccess && strings.HasPrefix(m[1], repoRoot+"/") {
-						rel := strings.TrimPrefix(m[1], repoRoot+"/")
-						files[rel] = true
-						if !gotTop {
+					if inAccess && !gotTop {
+						// the innermost frame that is neither runtime/std nor a third-party
+						// module decides whose access this is
+						switch {
+						case strings.HasPrefix(m[1], repoRoot+"/"):
+							rel := strings.TrimPrefix(m[1], repoRoot+"/")
+							files[rel] = true
 							tops = append(tops, lastFn+" ("+rel+")")
+							gotTop = true
+						case strings.HasPrefix(m[1], verifDir+"/"):
+							tops = append(tops, "HARNESS:"+lastFn)
 							gotTop = true
 						}
 					}
@@ -727,6 +733,11 @@ func runCheck(id string, cfg propCfg, tier string, seed int64, only string) int 
 					isViol = true
 				}
 			}
+		}
+		if strings.Contains(rr.Key, "HARNESS:") {
+			// a race between accesses made by the harness itself: a harness bug, never a verdict
+			inconcl = append(inconcl, "data race inside the harness: "+rr.Key)
+			continue
 		}
 		if isViol {
 			allViol = append(allViol, violation{Prop: id, Sig: "race:" + rr.Key, Case: "race-detector", Detail: rr.Text, Seed: seed, Tier: tier})
